@@ -123,6 +123,31 @@ DESC = {
               "--more, one `continues` reply, then the peer hangs up: exit status 0 although the announced reply never arrived"),
     "C20-4": ("C20", "print_call_ret -> render_call_ret returning a String; --more output is buffered when stdout is not a terminal",
               "--more with stdout piped, successful replies then an error reply: the pending successful replies are never written"),
+    # ---- round 8 (2026-09-29, "subtle, shape-preserving" brief) ----
+    "C02-7": ("C02", "handle(): the per-message buffer moved out of the loop and cleared at the bottom of the body; the `continue` of the no-dot branch skips the clear",
+              "a request whose method has no dot followed in the same handle() call by more bytes: the next message is appended behind the stale one"),
+    "C02-8": ("C02", "listen worker: `unread = if i.is_some()` becomes `if iface.is_some()` (the pre-call value)",
+              "upgraded-protocol bytes arriving together with the upgrade request: the read-ahead is discarded at the None->Some transition"),
+    "C03-6": ("C03", "VarlinkService::new builds the advertised interface list from the input vector instead of the table's keys",
+              "the same interface name registered more than once: GetInfo lists it twice"),
+    "C03-7": ("C03", "handle(): the rfind('.') match gains the guard `Some(x) if x + 1 < len`, everything else takes the no-dot arm",
+              "a method string ending in a dot (`org.example.t.`): InterfaceNotFound naming the whole string, the registered interface is never asked"),
+    "C09-3": ("C09", "varlink_derive::parse_varlink_args strips the raw-string delimiters with trim_matches('#' | '\"')",
+              "`varlink!` with a definition whose first line is a doc comment right after `r#\"`: the leading `#` is eaten, the macro panics on an accepted definition"),
+    "C09-4": ("C09", "method_ident() looks the snake-case name up in a hand-written keyword table that lacks `try`",
+              "a method named `Try`: `fn try(..)` is emitted and rustc rejects it"),
+    "C10-3": ("C10", "documentation text cut into lines with `.lines()` instead of `.split('\\n')` at every doc-emission site",
+              "CRLF line endings inside a documentation block of two or more lines: the `\\r` is lost (docs differ, colored != plain for type docs)"),
+    "C10-4": ("C10", "VStruct::get_multiline_colored: the fit test of the second and later fields becomes `<= max`",
+              "colored output, a later field with an anonymous type, width exactly indent + 2 + its one-line length"),
+    "C15-7": ("C15", "to_wait / wait_time hoisted out of the accept loop",
+              "idle_timeout > 0 and a stop flag configured; a connection arriving part-way through the countdown"),
+    "C15-8": ("C15", "execute: `*num_busy = (*num_busy + 1).min(max_workers)`; worker: `saturating_sub(1)` (two cooperating edits)",
+              "saturation (more connections than workers): a queued connection is never counted, the server declares idle while it is served and stops accepting"),
+    "C18-7": ("C18", "proxy::handle: `last_iface.clone_from(&iface)` moved into the looked-up branch",
+              "resolver mode: a call on service A, GetInfo, another call on A: the third goes to the resolver"),
+    "C18-8": ("C18", "WatchClose::new_read registers the descriptor it reads with EPOLLET -- unsafe epoll code, outside the verifier's reach; caught by the thorough tier's replay only",
+              "one message larger than 8192 bytes arriving in one piece, then silence: the rest is never read"),
     # ---- round 7 (2026-09-29) ----
     "C04-5": ("C04", "reply_struct refactored into one `if continues { .. } else if is_oneway() { return }` chain with a shared write_reply helper",
               "a request with oneway:true AND more:true to a method that streams with set_continues(true): the intermediate replies are written"),
